@@ -17,6 +17,20 @@ def gen_group(rng, quick):
     u = distq.gen_parquet_table(rng, "u", rng.choice([["i64", "str"], ["i64", "i64"]]), nrows=rng.choice([0, 1, 3, 5]))
     tables = [t, u]
     queries = []
+    if rng.random() < 0.3:
+        # sparse duplicate keys: a NULL-free integer column whose value RANGE reaches a shard's row count although its values
+        # repeat (0 / 1000 alternating), grouped together with a second column: the shape in which a shard-level distinct-value
+        # estimate makes the key look unique (repaired by 5300ced; re-introduced by seeded change seeded/C09)
+        n = rng.choice([6, 8, 12, 16])
+        ttypes = rng.choice([["i64", "i64", "str"], ["i64", "i64", "i64"]])
+        hi = rng.choice([1000, 50, 7])
+        rows = [[(i % 2) * hi, i % rng.choice([3, 5])] + [distq.relgen.gen_value(rng, ty, 0.2) for ty in ttypes[2:]] for i in range(n)]
+        t = dict(t, types=ttypes, rows=rows)
+        t["parquet"] = {"files": rng.choice([[], [n // 2], [n // 3, n // 3]]), "row_group": rng.choice([1, 2, 3, 100])}
+        tables = [t, u]
+        for keys in ([0, 1], [1, 0], [0, 1, 2]):
+            q = ("agg", ("table", 0, "t", len(ttypes)), [distq.col(k) for k in keys], [("ACountStar", distq.lit(1)), ("ASum", distq.col(1))])
+            queries.append({"q": q, "kind": "agg-sparse-keys", "sql": distq.flat_sql(q)})
     for _ in range(6):
         kind, q = distq.gen_statement(rng, tables)
         queries.append({"q": q, "kind": kind, "sql": distq.flat_sql(q)})
